@@ -2,7 +2,7 @@
     partitionLocker under a deterministic scheduler, processJob with scripted queriers) vs the models. *)
 From Coq Require Import List String ZArith NArith Bool Arith.
 From PintV Require Import Common.Bytes.
-From PintV Require Export Model.KeyLock Model.KeyLockCache Model.KeyLockKeys.
+From PintV Require Export Model.KeyLock Model.KeyLockCache Model.KeyLockKeys Model.KeyLockTimed.
 Import ListNotations.
 Open Scope string_scope.
 
@@ -78,38 +78,54 @@ Fixpoint job_trace (max_stale : Z) (st : pstate) (l : list (jop * jobs)) : optio
       else job_trace max_stale st' r
   end.
 
-(** ---- the composed pipeline, one call at a time: lock, enqueue, take, cache check, (request), reply, unlock *)
+(** ---- the composed pipeline, one call at a time: lock, enqueue, take, cache check, (request), reply, unlock - on the
+    TIMED system: between calls the injected clock advances and queryCache.gc() runs; TTLs are the CacheTTL() values of
+    the real query types (exported by the harness), so expiry and staleness decide which later call is a hit *)
 Record pcall := mk_pcall { pc_q : nat; pc_fail : bool; pc_asked : bool; pc_ok : bool; pc_value : nat }.
+
+Inductive pop :=
+| PCall (p : pcall)
+| PTick (d : Z)                          (* the clock advances by d ns *)
+| PGc (entries_after : nat).             (* queryCache.gc(); observed number of entries afterwards *)
 
 (** caller [c] of the trace asks question [nth c qs]: lock key = cache key = question id, one job *)
 Definition pipe_config (qs : list nat) (pool : nat) : config :=
   mk_config (fun c => nth c qs 0%nat) (fun c => [nth c qs 0%nat]) pool.
 
-Definition do (cf : config) (s : option state) (a : action) : option state :=
-  match s with Some s => step cf s a | None => None end.
+Definition pcalls (l : list pop) : list pcall := flat_map (fun o => match o with PCall p => [p] | _ => [] end) l.
 
-Fixpoint pipe_trace (cf : config) (s : state) (c : nat) (l : list pcall) : option string :=
+Definition tdo (tc : tconfig) (s : option tstate) (a : taction) : option tstate :=
+  match s with Some s => tstep tc s a | None => None end.
+
+Fixpoint pipe_trace (tc : tconfig) (s : tstate) (c : nat) (l : list pop) : option string :=
   match l with
   | [] => None
-  | p :: r =>
-      match do cf (do cf (do cf (Some s) (ALock c)) (AEnq c)) (ATake 0) with
+  | PTick d :: r => match tstep tc s (TTick d) with Some s' => pipe_trace tc s' c r | None => Some "pipeline-clock" end
+  | PGc n :: r =>
+      match tstep tc s TGc with
+      | Some s' => if Nat.eqb (List.length (cs_entries (t_c s'))) n && Nat.eqb (List.length (cache (t_s s'))) n
+                   then pipe_trace tc s' c r else Some "pipeline-gc-entries"
+      | None => Some "pipeline-gc"
+      end
+  | PCall p :: r =>
+      match tdo tc (tdo tc (tdo tc (Some s) (TLock c)) (TEnq c)) (TTake 0) with
       | None => Some "pipeline-stuck-before-check"
       | Some s1 =>
-          match step cf s1 (ACheck 0) with
+          match tstep tc s1 (TCheck 0) with
           | None => Some "pipeline-check"
           | Some s2 =>
-              let missed := match wst s2 0%nat with WRunning _ => true | _ => false end in
+              let missed := match wst (t_s s2) 0%nat with WRunning _ => true | _ => false end in
               if negb (Bool.eqb missed (pc_asked p)) then Some "pipeline-request-sent"
               else
-                let s3 := if missed then step cf s2 (AEnd 0 (if pc_fail p then RErr else ROk (pc_value p))) else Some s2 in
+                let s3 := if missed then tstep tc s2 (TEnd 0 (if pc_fail p then RErr else ROk (pc_value p))) else Some s2 in
                 match s3 with
                 | None => Some "pipeline-end"
                 | Some s3 =>
-                    let res := match wst s3 0%nat with WReply _ res => Some res | _ => None end in
-                    match res, do cf (do cf (Some s3) (AReply 0)) (AUnlock c) with
+                    let res := match wst (t_s s3) 0%nat with WReply _ res => Some res | _ => None end in
+                    match res, tdo tc (tdo tc (Some s3) (TReply 0)) (TUnlock c) with
                     | Some (ROk v), Some s4 =>
-                        if pc_ok p && Nat.eqb v (pc_value p) then pipe_trace cf s4 (S c) r else Some "pipeline-result"
-                    | Some RErr, Some s4 => if pc_ok p then Some "pipeline-error-expected" else pipe_trace cf s4 (S c) r
+                        if pc_ok p && Nat.eqb v (pc_value p) then pipe_trace tc s4 (S c) r else Some "pipeline-result"
+                    | Some RErr, Some s4 => if pc_ok p then Some "pipeline-error-expected" else pipe_trace tc s4 (S c) r
                     | _, _ => Some "pipeline-stuck-after-check"
                     end
                 end
@@ -141,18 +157,19 @@ Definition key_rows (l : list (question * string)) : option string :=
 
 Inductive case :=
 | KeyCase (id : N) (rows : list (question * string))
-| PipeCase (id : N) (pool : nat) (calls : list pcall)
+| PipeCase (id : N) (pool : nat) (max_stale : Z) (ttls : list Z) (ops : list pop)
 | CacheCase (id : N) (max_stale : Z) (ops : list (cop * cobs))
 | LockCase (id : N) (keys : list nat) (events : list levent)
 | JobCase (id : N) (max_stale : Z) (ops : list (jop * jobs)).
 
 Definition case_id (c : case) : N :=
-  match c with KeyCase i _ | PipeCase i _ _ | CacheCase i _ _ | LockCase i _ _ | JobCase i _ _ => i end.
+  match c with KeyCase i _ | PipeCase i _ _ _ _ | CacheCase i _ _ | LockCase i _ _ | JobCase i _ _ => i end.
 
 Definition check (c : case) : option string :=
   match c with
   | KeyCase _ rows => key_rows rows
-  | PipeCase _ pool calls => pipe_trace (pipe_config (map pc_q calls) pool) init 0 calls
+  | PipeCase _ pool ms ttls ops =>
+      pipe_trace (mk_tconfig (pipe_config (map pc_q (pcalls ops)) pool) (fun ck => nth ck ttls 0%Z) ms) tinit 0 ops
   | CacheCase _ ms ops => cache_trace ms cache_empty ops 0
   | LockCase _ keys evs => lock_trace (mk_config (fun g => nth g keys 0%nat) (fun _ => []) 0) init evs
   | JobCase _ ms ops => job_trace ms (mk_pstate cache_empty []) ops
